@@ -243,3 +243,8 @@ def run(ctx):
         ctx.ob("R-C18.4", kf4, "callers-factory-is-dropped-before-the-assigners-answer", ok4,
                "the options' own factory is cleared before the assigner's answer (if any) is installed" if ok4
                else "a factory already inside the caller's options survives when the assigner returns None for the name: options cloned from a filtered keyspace put that keyspace's filter in effect for a keyspace it was not assigned to")
+
+    # ---- borrowed obligations (mechanisms owned by other properties that this property's verdict also rests on)
+    # the compaction worker uses the strategy/filter of the keyspace it compacts
+    ctx.borrow("C12", ["R-C12.10"], "R-C18.5")
+
